@@ -196,17 +196,14 @@ example : (PyOp.print (fun _ => some 3) ⟨1, "message_Talk", [.constString "a" 
 section comp
 variable {Src Ctor Res Imp Mac Ord Err : Type}
 
-/-- compile() on an object in any state gives the same results (res, imports, macros, exception) as on an object
-with the same constructor state in any other state — in particular a freshly constructed one — and leaves the
-constructor state alone. -/
-theorem compile_reset (st : Stages Src Ctor Res Imp Mac Ord Err) (o o' : Comp Ctor Res Imp Mac Ord) (src : Src)
+theorem compileBody_reset (st : Stages Src Ctor Res Imp Mac Ord Err) (o o' : Comp Ctor Res Imp Mac Ord) (src : Src)
     (hc : o.ctor = o'.ctor) :
-    (compile st o src).2 = (compile st o' src).2 ∧
-    (compile st o src).1.res = (compile st o' src).1.res ∧
-    (compile st o src).1.imports = (compile st o' src).1.imports ∧
-    (compile st o src).1.macros = (compile st o' src).1.macros ∧
-    (compile st o src).1.ctor = o.ctor := by
-  unfold compile
+    (compileBody st o src).2 = (compileBody st o' src).2 ∧
+    (compileBody st o src).1.res = (compileBody st o' src).1.res ∧
+    (compileBody st o src).1.imports = (compileBody st o' src).1.imports ∧
+    (compileBody st o src).1.macros = (compileBody st o' src).1.macros ∧
+    (compileBody st o src).1.ctor = o.ctor := by
+  unfold compileBody
   simp only [hc]
   split
   · split <;> simp
@@ -221,6 +218,30 @@ theorem compile_reset (st : Stages Src Ctor Res Imp Mac Ord Err) (o o' : Comp Ct
           · split
             · simp
             · split <;> simp
+
+/-- compile() on an object in any state gives the same results (res, imports, macros, exception) as on an object
+with the same constructor state in any other state — in particular a freshly constructed one — and leaves the
+constructor state alone. -/
+theorem compile_reset (st : Stages Src Ctor Res Imp Mac Ord Err) (o o' : Comp Ctor Res Imp Mac Ord) (src : Src)
+    (hc : o.ctor = o'.ctor) :
+    (compile st o src).2 = (compile st o' src).2 ∧
+    (compile st o src).1.res = (compile st o' src).1.res ∧
+    (compile st o src).1.imports = (compile st o' src).1.imports ∧
+    (compile st o src).1.macros = (compile st o' src).1.macros ∧
+    (compile st o src).1.ctor = o.ctor := by
+  obtain ⟨h1, h2, h3, h4, h5⟩ := compileBody_reset st o o' src hc
+  unfold compile
+  cases ha : compileBody st o src with
+  | mk a ea =>
+    cases hb : compileBody st o' src with
+    | mk b eb =>
+      rw [ha, hb] at h1 h2 h3 h4
+      rw [ha] at h5
+      simp only at h1 h2 h3 h4 h5
+      subst h1
+      cases ea with
+      | none => exact ⟨rfl, h2, h3, h4, h5⟩
+      | some e => exact ⟨rfl, rfl, h3, h4, h5⟩
 
 /-- after any sequence of earlier compile() calls on the object -/
 theorem compile_reset_after_history (st : Stages Src Ctor Res Imp Mac Ord Err) (c : Ctor) (ord0 : Ord)
@@ -253,6 +274,7 @@ def stW : Stages Bool Unit Nat Unit Unit Nat Unit where
   macrosOnly := fun _ => false
   macrosOnlyCheck := fun _ => none
   routines := fun _ _ _ => .ok 7
+  convertErr := id
 
 theorem compile_order_not_reset_counterexample :
     (compile stW (compileMany stW (Comp.init stW () 0) [false]) true).1.order = 1 ∧
